@@ -1,29 +1,83 @@
 package main
 
-import "go/types"
+import (
+	"go/ast"
+	"go/types"
+)
 
-// Maps are not yet modelled; every operation leaves the verifiable subset.
+// Maps: a map value is an Int handle m; two heaps per map type hold its
+// contents:  MV_<type>[m][key] (value) and MP_<type>[m][key] (present).
+// Keys are ints or structs of ints (datatypes); iteration order of range is
+// arbitrary (loops over maps are cut at invariants that must hold for any
+// order).
 
-func (x *Exec) mapHeapName(ty *Ty) string { return "M_" + sanitize(typeName(ty.Go)) }
+func (x *Exec) mapHeapName(ty *Ty) string {
+	if mt, ok := ty.Go.Underlying().(*types.Map); ok {
+		return "MV_" + sanitize(mt.String())
+	}
+	return "MV_" + sanitize(typeName(ty.Go))
+}
+
+func (x *Exec) mapHeaps(st *State, mt *types.Map) (string, *Term, string, *Term, *Ty, *Ty) {
+	kt := x.w.goTy(mt.Key(), x.model.BV)
+	vt := x.w.goTy(mt.Elem(), x.model.BV)
+	ks := x.w.sortOf(kt, x.model)
+	vs := x.w.sortOf(vt, x.model)
+	tag := sanitize(mt.String())
+	vn, pn := "MV_"+tag, "MP_"+tag
+	vh := x.heap(st, vn, ArrSort(SInt, ArrSort(ks, vs)))
+	ph := x.heap(st, pn, ArrSort(SInt, ArrSort(ks, SBool)))
+	return vn, vh, pn, ph, kt, vt
+}
 
 func (x *Exec) mapGet(st *State, m, k Val, mt *types.Map) Val {
-	panic(engineError{"maps are outside the translated subset"})
+	_, vh, _, ph, kt, vt := x.mapHeaps(st, mt)
+	key := x.coerceTo(k, kt)
+	present := Select(st.sel(ph, m.T), key)
+	val := Select(st.sel(vh, m.T), key)
+	return Val{T: Ite(present, val, x.zero(vt)), Ty: vt}
 }
+
 func (x *Exec) mapHas(st *State, m, k Val, mt *types.Map) *Term {
-	panic(engineError{"maps are outside the translated subset"})
+	_, _, _, ph, kt, _ := x.mapHeaps(st, mt)
+	return Select(st.sel(ph, m.T), x.coerceTo(k, kt))
 }
+
 func (x *Exec) mapSet(st *State, m, k, v Val, mt *types.Map) {
-	panic(engineError{"maps are outside the translated subset"})
+	vn, vh, pn, ph, kt, vt := x.mapHeaps(st, mt)
+	key := x.coerceTo(k, kt)
+	x.recordWrite(st, vn, m.T, nil, nil, nil, nil)
+	st.heaps[vn] = Store(vh, m.T, Store(st.sel(vh, m.T), key, x.coerceTo(v, vt)))
+	st.heaps[pn] = Store(ph, m.T, Store(st.sel(ph, m.T), key, tTrue))
 }
+
 func (x *Exec) mapDelete(st *State, m, k Val, mt *types.Map) {
-	panic(engineError{"maps are outside the translated subset"})
+	_, _, pn, ph, kt, _ := x.mapHeaps(st, mt)
+	key := x.coerceTo(k, kt)
+	x.recordWrite(st, pn, m.T, nil, nil, nil, nil)
+	st.heaps[pn] = Store(ph, m.T, Store(st.sel(ph, m.T), key, tFalse))
 }
+
 func (x *Exec) mapLen(st *State, m Val, mt *types.Map) *Term {
-	panic(engineError{"maps are outside the translated subset"})
+	x.sym.Func("maplen", []Sort{SInt}, SInt)
+	t := mk("maplen", SInt, m.T)
+	st.assume(Ge(t, IntLit(0)))
+	return t
 }
+
 func (x *Exec) newMap(st *State, ty *Ty, mt *types.Map) Val {
-	panic(engineError{"maps are outside the translated subset"})
+	vn, vh, pn, ph, kt, vt := x.mapHeaps(st, mt)
+	ks := x.w.sortOf(kt, x.model)
+	vs := x.w.sortOf(vt, x.model)
+	m := st.bump()
+	emptyP := mk("(as const "+string(ArrSort(ks, SBool))+")", ArrSort(ks, SBool), tFalse)
+	emptyV := mk("(as const "+string(ArrSort(ks, vs))+")", ArrSort(ks, vs), x.zero(vt))
+	st.heaps[vn] = Store(vh, m, emptyV)
+	st.heaps[pn] = Store(ph, m, emptyP)
+	return Val{T: m, Ty: ty}
 }
-func (x *Exec) rangeMap(s interface{}, st *State, label string) outcome {
-	panic(engineError{"maps are outside the translated subset"})
+
+func (x *Exec) rangeMap(s *ast.RangeStmt, st *State, label string) outcome {
+	x.unsupported(s, "range over maps is outside the translated subset")
+	panic("unreachable")
 }
